@@ -77,19 +77,18 @@ func newRequest(b Body) *http.Request {
 
 // Handler operations.
 const (
-	opSetX   = "SetX"   // Header().Add("X-A", <op index>)
-	opSetCT  = "SetCT"  // Header().Set("Content-Type", "text/plain")
-	opW1     = "W1"     // Write(1 B)
-	opW3     = "W3"     // Write(3 B)
-	opWL     = "WL"     // Write(response limit B)
-	opFlush  = "Flush"  // Flush()
-	opRF4    = "RF4"    // ReadFrom(4 B reader)
-	opRead   = "Read"   // read the request body to EOF (io.ReadAll), then Write its decimal length
-	opRead1  = "Read1"  // same with a 1-byte read buffer
-	opRead3  = "Read3"  // same with a 3-byte read buffer
-	opReadQ  = "ReadQ"  // read the request body to EOF, write nothing
-	opWH     = "WH"     // prefix: WH200, WH201, WH204, WH304, WH404, WH103
-	opSetLoc = "SetLoc" // unused by the generator; kept for hand-written replays
+	opSetX  = "SetX"  // Header().Add("X-A", <op index>)
+	opSetCT = "SetCT" // Header().Set("Content-Type", "text/plain") (hand-written replays only)
+	opW1    = "W1"    // Write(1 B)
+	opW3    = "W3"    // Write(3 B)
+	opWL    = "WL"    // Write(response limit B)
+	opFlush = "Flush" // Flush()
+	opRF4   = "RF4"   // ReadFrom(4 B reader)
+	opRead  = "Read"  // read the request body to EOF (io.ReadAll), then Write its decimal length
+	opRead1 = "Read1" // same with a 1-byte read buffer
+	opRead3 = "Read3" // same with a 3-byte read buffer
+	opReadQ = "ReadQ" // read the request body to EOF, write nothing
+	opWH    = "WH"    // prefix: WH200, WH201, WH204, WH304, WH404, WH103
 )
 
 var whCodes = []int{200, 201, 204, 304, 404, 103}
